@@ -9,6 +9,7 @@ RK = {
     "get": '[method |-> "GET", body |-> "none"]',
     "put": '[method |-> "PUT", body |-> "none"]',
     "foo": '[method |-> "FOO", body |-> "none"]',
+    "huge": '[method |-> "POST", body |-> "malformed"]',      # an over-long non-document body is a malformed body
 }
 
 
@@ -96,7 +97,8 @@ def replay(ctx, behaviours, mode="deletion", depth=2, batch=1, chunk=60):
 
 ALL_KINDS = ["valid", "unsat", "malformed", "get", "put", "foo"]
 KIND_JSON = {"valid": dict(method="POST", body="valid"), "unsat": dict(method="POST", body="unsat"), "malformed": dict(method="POST", body="malformed"),
-             "get": dict(method="GET", body="none"), "put": dict(method="PUT", body="none"), "foo": dict(method="FOO", body="none")}
+             "get": dict(method="GET", body="none"), "put": dict(method="PUT", body="none"), "foo": dict(method="FOO", body="none"),
+             "huge": dict(method="POST", body="huge")}
 
 
 def load_and_validate(ctx, kinds, rounds, max_clients, scrapes=3, mode="deletion", depth=2, batch=1, race=False):
